@@ -1,6 +1,8 @@
 package rules
 
 import (
+	"sort"
+	"go/constant"
 	"fmt"
 	"go/token"
 	"go/types"
@@ -25,13 +27,16 @@ func init() {
 				"reply, and that function accepts only replies whose ID, question count, question type and (case-insensitively) " +
 				"name equal the request's.",
 			NotCovered: "the up/down state machine over all fault sequences and the timing of the backoff (run-time quantities).",
-			Rules: map[string]string{"C17-R11": "a buffer that is both sent and received into is filled again before it is sent a second time (the retry after a failed exchange sends the query, not the remains of a partial response)", "C17-R10": "isExpectedConnErr is net.Error-or-EOF on non-nil errors; the forward metrics listener tolerates the nil response of a failed exchange", "C17-R9": "the fail-over decision classifies exchange errors with the same helper as the retry (net.Error or io.EOF)", "C17-RC": "class rules (error chains, shadowed results, character classes, crossed arguments, pool constructors, array pools, loop completeness, loop-carried buffers, replacing setters, complete clones, Grow arithmetic, pooled-buffer escape, sorted searches, fresh decode targets, per-iteration objects, whole-message copies, codec guards) over the packages this property rests on", "C17-R8": "every fmt.Errorf that reports an error value wraps it with %w (the fail-over decision classifies causes with errors.As)", "C17-R7": "upstream connection pool: Get hands out only connections that passed the idle-expiry test (expired ones are closed), Put queues or closes", "C17-R1": "ServeDNS fail-over table", "C17-R2": "who replaces the active set, under which lock and gate",
+			Rules: map[string]string{"C17-R12": "UpstreamPlain.getBuffer and putBuffer map each network to the same buffer pool", "C17-R11": "a buffer that is both sent and received into is filled again before it is sent a second time (the retry after a failed exchange sends the query, not the remains of a partial response)", "C17-R10": "isExpectedConnErr is net.Error-or-EOF on non-nil errors; the forward metrics listener tolerates the nil response of a failed exchange", "C17-R9": "the fail-over decision classifies exchange errors with the same helper as the retry (net.Error or io.EOF)", "C17-RC": "class rules (error chains, shadowed results, character classes, crossed arguments, pool constructors, array pools, loop completeness, loop-carried buffers, replacing setters, complete clones, Grow arithmetic, pooled-buffer escape, sorted searches, fresh decode targets, per-iteration objects, whole-message copies, codec guards) over the packages this property rests on", "C17-R8": "every fmt.Errorf that reports an error value wraps it with %w (the fail-over decision classifies causes with errors.As)", "C17-R7": "upstream connection pool: Get hands out only connections that passed the idle-expiry test (expired ones are closed), Put queues or closes", "C17-R1": "ServeDNS fail-over table", "C17-R2": "who replaces the active set, under which lock and gate",
 				"C17-R3": "health probe state table", "C17-R5": "configuration wiring: main servers, fallback servers and health-check settings of the configuration reach the handler's fields of the same meaning",
 				"C17-R4": "reply validation tables"},
 		}})
 }
 
 func runC17(c *an.Ctx) {
+	// ---- R12: the buffer pools of an upstream: taken from and returned to the pool of the same network
+	c.Floor("C17-R12", 1)
+	c17BufferPoolsAgree(c, "C17-R12")
 	c.Floor("C17-R10", 2)
 	c17ConnErrClass(c)
 	if n := sharedSendBufferIntact(c, "C17-R11", "dnsserver/forward."); n < 1 {
@@ -78,7 +83,8 @@ func runC17(c *an.Ctx) {
 					resp = an.NonNil(k + "Resp")
 				}
 				if it.Feature(k + "err").IsTrue() {
-					return an.AV{Kind: an.KTuple, Tup: []an.AV{an.Nil(), an.NonNil(k + "Err")}}, true
+					// an exchange can fail and still hand back a message: the reply that did not pass validation
+					return an.AV{Kind: an.KTuple, Tup: []an.AV{resp, an.NonNil(k + "Err")}}, true
 				}
 				return an.AV{Kind: an.KTuple, Tup: []an.AV{resp, an.Nil()}}, true
 			case strings.HasSuffix(name, "errors.As"):
@@ -1070,24 +1076,83 @@ func c17ErrClassAgreement(c *an.Ctx) {
 // exchange and the fail-over decision.
 func c17ConnErrClass(c *an.Ctx) {
 	decide(c, "C17-R10", "dnsserver/forward.isExpectedConnErr", an.DecideCfg{
-		Dom: an.Domain{"p0": an.NilOrNot, "isnet": an.Bools, "iseof": an.Bools},
+		Dom: an.Domain{"p0": an.NilOrNot, "isnet": an.Bools, "iseof": an.Bools, "isueof": an.Bools},
 		OnCall: func(it *an.Interp, name string, args []an.AV) (an.AV, bool) {
 			switch {
 			case strings.HasSuffix(name, "errors.As"):
 				return it.Feature("isnet"), true
 			case strings.HasSuffix(name, "errors.Is"):
+				// a connection closed before any byte of the reply (io.EOF) or in the middle of it (io.ErrUnexpectedEOF)
+				if len(args) == 2 && strings.Contains(args[1].String(), "ErrUnexpectedEOF") {
+					return it.Feature("isueof"), true
+				}
 				return it.Feature("iseof"), true
 			}
 			return an.AV{}, false
 		},
 		Expect: func(f an.Features, o an.AOutcome) string {
-			want := !f.IsNil("p0") && (f.B("isnet") || f.B("iseof"))
+			want := !f.IsNil("p0") && (f.B("isnet") || f.B("iseof") || f.B("isueof"))
 			if len(o.Ret) != 1 || o.Ret[0].Kind != an.KConst || o.Ret[0].IsTrue() != want {
-				return fmt.Sprintf("%v (a non-nil error that is a net.Error or io.EOF); got %s", want, o.RetString())
+				return fmt.Sprintf("%v (a non-nil error that is a net.Error, io.EOF or io.ErrUnexpectedEOF: the connection failed or was closed, before or in the middle of the reply); got %s", want, o.RetString())
 			}
 			return ""
 		},
 	})
 	sharedNilGuardedParam(c, "C17-R10", "dnsserver/prometheus.(*ForwardMetricsListener).OnForwardRequest", 4,
 		"Handler.exchange calls the listener after every exchange, also a failed one, whose response is nil: the panic replaces the error on which the fail-over decision is made")
+}
+
+// c17BufferPoolsAgree: a buffer taken for one network goes back to the pool of
+// that network.  getBuffer and putBuffer are the two halves of one table
+// (network -> pool); they must be the same table.  A 4 KiB UDP buffer in the
+// TCP pool is handed to the next TCP exchange, whose reply of up to 64 KiB is
+// read into it with buf[:length] (a panic inside the exchange, no fail-over).
+func c17BufferPoolsAgree(c *an.Ctx, rule string) {
+	table := func(fnKey string) (m map[string]string, ok bool) {
+		fn := c.Fn(fnKey)
+		if fn == nil {
+			return nil, false
+		}
+		c.Analysed(fnKey)
+		m = map[string]string{}
+		for _, call := range an.Calls(fn) {
+			name := an.CalleeName(call)
+			if !strings.HasSuffix(name, ".Get") && !strings.HasSuffix(name, ".Put") || !strings.Contains(name, "syncutil.Pool") {
+				continue
+			}
+			pool, okp := an.AccessPath(call.Common().Args[0])
+			if !okp {
+				continue
+			}
+			net := "?"
+			for _, e := range an.DominatingConds(call.Block()) {
+				if b, isB := e.If.Cond.(*ssa.BinOp); isB && b.Op == token.EQL && e.Branch {
+					for _, op := range []ssa.Value{b.X, b.Y} {
+						if k, isK := an.Unwrap(op).(*ssa.Const); isK && k.Value != nil && k.Value.Kind() == constant.String {
+							net = constant.StringVal(k.Value)
+						}
+					}
+				}
+			}
+			m[net] = strings.TrimPrefix(pool, "p0.")
+		}
+		return m, true
+	}
+	const u = "dnsserver/forward.(*UpstreamPlain)."
+	get, ok1 := table(u + "getBuffer")
+	put, ok2 := table(u + "putBuffer")
+	key := "getBuffer and putBuffer of the plain upstream use the same pool for each network"
+	if !ok1 || !ok2 || len(get) < 2 {
+		c.Und(rule, key, token.NoPos, "anchors not found or no network cases recognised (%v, %v)", get, put)
+		return
+	}
+	var diff []string
+	for n, p := range get {
+		if put[n] != p {
+			diff = append(diff, fmt.Sprintf("%s: taken from %s, returned to %s", n, p, put[n]))
+		}
+	}
+	sort.Strings(diff)
+	c.Check(len(diff) == 0 && len(put) == len(get), rule, key, token.NoPos, fmt.Sprintf("%d networks, each with one pool on both sides", len(get)),
+		strings.Join(diff, "; ")+": a buffer of one size class enters the pool of the other, and the next exchange on that network reads a longer reply into it")
 }
